@@ -92,8 +92,41 @@ def getitem_ints_battery():
     return dict(fails=False, detail='%d native integer-list selections agree with the list of rows' % count)
 
 
+def record_battery():
+    """dictable(one record) over cells None / scalar / lists of length 0..3, two or three keys: ValueError iff two cells have lengths other than 1 that
+    differ; else the keys as columns, all of the common length, a cell of that length as it is, a cell of length 1 repeated"""
+    from pyg_base import dictable, Dict
+    cells = [None, 5, [], [1], [1, 2], [7, 8], [1, None, 3]]
+    count = 0
+    for nk in (1, 2, 3):
+        for combo in itertools.product(cells, repeat=nk):
+            for make in (dict, Dict):
+                rec = make(zip('abc', [list(c) if isinstance(c, list) else c for c in combo]))
+                count += 1
+                what = 'dictable(%s(%r))' % (make.__name__, dict(rec))
+                col = lambda c: list(c) if isinstance(c, list) else [c]
+                lens_ = {len(col(c)) for c in combo} - {1}
+                try:
+                    d = dictable(rec)
+                except ValueError:
+                    if len(lens_) <= 1:
+                        return dict(fails=True, detail='%s raised ValueError although the list cells have one length' % what)
+                    continue
+                except Exception as e:      # noqa
+                    return dict(fails=True, detail='%s raised %s: %s' % (what, type(e).__name__, str(e)[:120]))
+                if len(lens_) > 1:
+                    return dict(fails=True, detail='%s returned %r although two list cells differ in length (ValueError expected)' % (what, _cols(d)))
+                n = list(lens_)[0] if lens_ else 1
+                want = {k: (col(c) if len(col(c)) == n else col(c) * n) for k, c in zip('abc', combo)}
+                if _cols(d) != want or len(d) != n:
+                    return dict(fails=True, detail='%s has the columns %r, expected %r' % (what, _cols(d), want))
+    return dict(fails=False, detail='%d native constructions from one record agree with the broadcast model' % count)
+
+
 def replay(call):
     from pyg_base import dictable
+    if call.get('kind') == 'record':
+        return record_battery()
     if call.get('kind') == 'rows_headers':
         return rows_headers_battery()
     if call.get('kind') == 'getitem_ints':
